@@ -223,7 +223,13 @@ def midi_monitor(pid):
                 ref.prio = t[1]
             elif t[0] == "retrig":
                 ref.retrig = t[1] == "on"
-            if ref.overflow and pid in ("C04", "C05", "C06"):
+            if ref.overflow and pid == "C05":
+                # more than 32 outstanding note-ons: the held-note clauses are outside the quantifier, but
+                # "rising_gate() is true after any note-on in retrigger mode" does not depend on them:
+                # check a rise poll that directly follows such a note-on (only real-time bytes in between)
+                fails += c05_retrigger_tail(script, outs, i)
+                break
+            if ref.overflow and pid in ("C04", "C06"):
                 break   # more than 32 outstanding note-ons: outside the quantifier
             got = o.split()
             exp = ref.levels()
@@ -245,6 +251,48 @@ def midi_monitor(pid):
                 break
         return fails
     return mon
+
+
+def c05_retrigger_tail(script, outs, start):
+    """from op `start` on: follow only framing, retrigger mode and note-ons; a `rise` poll right after a
+    note-on (velocity > 0, listened channel) received in retrigger mode must return true"""
+    fails = []
+    ref = None
+    armed = False
+    for i, op in enumerate(script.ops):
+        if i >= len(outs) or outs[i] == "PANIC":
+            break
+        t = op.split()
+        if t[0] == "midi.new":
+            ref = MidiRef(int(t[1]))
+            continue
+        if t[0] == "retrig":
+            ref.retrig = t[1] == "on"
+        elif t[0] == "b":
+            b = int(t[1])
+            n_on = [0]
+            orig = ref.note_on
+
+            def counting(n, v, orig=orig, n_on=n_on):
+                n_on[0] += 1
+                orig(n, v)
+            ref.note_on = counting
+            ref.byte(b)
+            ref.note_on = orig
+            if n_on[0]:
+                armed = ref.retrig
+            elif b < 0xF8:
+                # any other byte (except real-time ones) may start or complete a message that changes
+                # the gate: disarm conservatively
+                armed = False
+        elif t[0] == "rise":
+            if i >= start and armed and not outs[i].endswith("r=1"):
+                fails.append((i, "rising_gate() returned false right after a note-on received in retrigger mode"))
+                break
+            armed = False
+        elif t[0] == "fall":
+            pass
+    return fails
 
 
 def mon_C18_extra(script, outs):
